@@ -25,6 +25,27 @@ pub fn build_specials(refs: &mut Refs, seed: u64, with_pb: bool) {
     let mut d = dummy_inputs().unwrap();
     d.public.exit_account_2 = random_digest(&mut rng);
     refs.specials.insert("dummy_exit2".into(), prove_leaf(&d).unwrap_or_else(|e| qpz_core::harness_error(&format!("cannot prove a foreign dummy (exit 2): {e:#}"))).to_bytes());
+    // one valid foreign dummy per single non-zero exit-account limb: a validator that skips one
+    // felt of the sentinel is only observable through a proof that VERIFIES and deviates in
+    // exactly that felt (an edited proof is caught by verification whatever the sentinel test does)
+    for which in 1..=2usize {
+        for limb in 0..4usize {
+            let mut d = dummy_inputs().unwrap();
+            let mut b = [0u8; 32];
+            b[limb * 8 + (rng.below(7) as usize)] = 1 + rng.below(200) as u8;
+            let acct = BytesDigest::try_from(b).expect("one small limb is canonical");
+            if which == 1 {
+                d.public.exit_account_1 = acct;
+            } else {
+                d.public.exit_account_2 = acct;
+            }
+            refs.specials.insert(format!("dummy_exit{which}_limb{limb}"), prove_leaf(&d).unwrap_or_else(|e| qpz_core::harness_error(&format!("cannot prove a foreign dummy (exit {which}, limb {limb}): {e:#}"))).to_bytes());
+        }
+    }
+    // asset id with only a high bit set (below 2^32)
+    let mut d = dummy_inputs().unwrap();
+    d.public.asset_id = 1 << 31;
+    refs.specials.insert("dummy_asset_high".into(), prove_leaf(&d).unwrap_or_else(|e| qpz_core::harness_error(&format!("cannot prove a foreign dummy (asset 2^31): {e:#}"))).to_bytes());
     if with_pb {
         let mut ns: Vec<usize> = refs.gens.iter().map(|g| g.n).collect();
         ns.sort();
